@@ -36,6 +36,9 @@ for d in sorted(glob.glob(root + '/seeded/C*/')):
     obls = []
     if os.path.exists(d + 'detected.json'):
         obls = json.load(open(d + 'detected.json')).get('obligations', [])
+    if os.path.exists(d + 'NEUTRALISED'):
+        rows.append('| %s | %s | (neutralised) %s |' % (sid, what, open(d + 'NEUTRALISED').read().strip()))
+        continue
     if obls:
         det += 1
         caught = ', '.join('`%s`' % o for o in obls[:4]) + (' (+%d)' % (len(obls) - 4) if len(obls) > 4 else '')
